@@ -62,10 +62,11 @@ def vec_funcs(name):
                 TRUNC=C.uf(f"TRUNCV_{name}", INT, VAL), RESET=C.uf(f"RESETV_{name}", INT, VAL), DONE=C.uf(f"DONE_{name}", INT, INT, BOOL))
 
 
-def mk_vec_env(E, name="env", mode="NEXT_STEP", discrete=False, wrapped=False, started=None):
-    """vector environment in an arbitrary state (started=None: it may or may not have been reset yet)"""
+def mk_vec_env(E, name="env", mode="NEXT_STEP", discrete=False, wrapped=False, started=None, n_envs=None):
+    """vector environment in an arbitrary state (started=None: it may or may not have been reset yet);
+    n_envs: a concrete number of sub-environments (then the statistics info carries per-environment lists)"""
     gym_model.VECTOR_ENVS.add(name)
-    n_envs = E.int(f"{name}.num_envs", 1)
+    n_envs = E.int(f"{name}.num_envs", 1) if n_envs is None else n_envs
     if discrete:
         single = Obj(DISCRETE, {"n": E.int(f"{name}.n_actions", 2), "start": 0}, name=f"{name}.single_action_space")
     else:
@@ -74,7 +75,7 @@ def mk_vec_env(E, name="env", mode="NEXT_STEP", discrete=False, wrapped=False, s
     n0 = E.int(f"{name}.steps_before", 0)
     o = Obj(VENV, {
         "num_envs": n_envs, "single_action_space": single, "metadata": {"autoreset_mode": LIB.funcs[f"gymnasium.vector.AutoresetMode.{mode}"]},
-        "$name": name, "$mode": mode, "$wrapped": "yes" if wrapped else "no", "$cur": E.val(f"{name}.cur0"),
+        "$name": name, "$concrete_envs": str(n_envs) if isinstance(n_envs, int) else "", "$mode": mode, "$wrapped": "yes" if wrapped else "no", "$cur": E.val(f"{name}.cur0"),
         "$alive": E.st.fresh_sym(f"{name}.alive0", BARR, is_input=True), "$stepped": E.st.fresh_sym(f"{name}.stepped0", BARR, is_input=True),
         "$started": E.bool(f"{name}.started0") if started is None else started,
         "$nsteps": n0, "$n0": n0, "$nresets": E.int(f"{name}.resets_before", 0),
@@ -128,7 +129,7 @@ def _venv(E, obj, name):
             f["$nsteps"] = C.binop("+", n, 1)
             f["$total"] = C.binop("+", f["$total"], f["num_envs"])
             hook(E, "step.post", env=obj)
-            return (f["$cur"], Sym(fn["REW"](nz)), Sym(fn["TERM"](nz)), Sym(fn["TRUNC"](nz)), VecInfo(obj, f["$wrapped"] == "yes"))
+            return (f["$cur"], Sym(fn["REW"](nz)), Sym(fn["TERM"](nz)), Sym(fn["TRUNC"](nz)), VecInfo(obj, f["$wrapped"] == "yes", E, nz))
         return Builtin("VectorEnv.step", step)
     if name == "close":
         return Builtin("VectorEnv.close", lambda E: None)
@@ -142,10 +143,27 @@ def _venv(E, obj, name):
 class VecInfo(dict):
     """info of a vector step; see module docstring"""
 
-    def __init__(self, env, wrapped):
+    def __init__(self, env, wrapped, E=None, nz=None):
         super().__init__()
         self.env = env
-        if wrapped:
+        n = int(env.fields["$concrete_envs"]) if env.fields.get("$concrete_envs") else None  # (a string: survives loop-cut havoc)
+        if wrapped and n is not None and E is not None:
+            # concrete number of sub-environments: per-environment lists.  RecordEpisodeStatistics adds its keys only
+            # in steps in which some episode finished; info["_episode"][e] holds exactly for those sub-environments;
+            # info["final_obs"][e] is their terminal observation (SAME_STEP: the returned observation is already the
+            # reset observation of the next episode - a different value)
+            fn = vec_funcs(env.fields["$name"])
+            fin = [Sym(fn["DONE"](z3.IntVal(e), nz)) for e in range(n)]
+            if E.st.branch(z3.Or(*[x.z for x in fin])):
+                final = C.uf(f"FINALOBS_{env.fields['$name']}", INT, INT, VAL)
+                ep_r, ep_l = C.uf(f"EPRET_{env.fields['$name']}", INT, INT, C.REAL), C.uf(f"EPLEN_{env.fields['$name']}", INT, INT, INT)
+                for e in range(n):
+                    E.assume(ep_l(z3.IntVal(e), nz) >= 1)
+                self["_episode"] = fin
+                self["episode"] = {"r": [Sym(ep_r(z3.IntVal(e), nz)) for e in range(n)], "l": [Sym(ep_l(z3.IntVal(e), nz)) for e in range(n)],
+                                   "t": [Anything("episode.t")] * n}
+                self["final_obs"] = [Sym(final(z3.IntVal(e), nz)) for e in range(n)]
+        elif wrapped:
             m = Obj(MASK, {}, name=f"{env.name}.info._episode")
             self["_episode"] = m
             self["episode"] = {k: Obj(STATS, {}, name=f"{env.name}.info.episode.{k}") for k in ("r", "l", "t")}
